@@ -100,6 +100,29 @@ def run_scenarios(res, out, limit=None):
     return n
 
 
+def unbounded_fold(res):
+    """ExitFold: the three exit-code folds for any number of files; Apalache checks that IndInv is
+    inductive and implies the allowed codes (MC_Cli.FoldAgrees ties the fold to the driver machine)"""
+    d = os.path.join(SPEC, "apalache")
+    out_dir = os.path.join(WORK, "apalache")
+    steps = [("initiation", ["--init=Init", "--inv=IndInv", "--length=0"]),
+             ("consecution", ["--init=IndInit", "--inv=IndInv", "--length=1"]),
+             ("implies-final", ["--init=IndInit", "--inv=Final", "--length=0"])]
+    ok = 0
+    for name, args in steps:
+        rc, out = sh(["timeout", "600", "apalache-mc", "check"] + args + ["--out-dir=" + out_dir, "ExitFold.tla"], cwd=d, timeout=700)
+        if "EXITCODE: OK" in out:
+            ok += 1
+        elif "EXITCODE: ERROR (12)" in out:
+            raise ToolError("ExitFold: IndInv is not inductive (%s)" % name)
+        else:
+            log(out[-1500:])
+            raise ToolError("apalache-mc failed on ExitFold (%s)" % name)
+    res.cov["unbounded_fold_obligations"] = {"checked": len(steps), "ok": ok, "tool": "apalache-mc 0.58 (IndInv inductive, implies Final)"}
+    import shutil
+    shutil.rmtree(out_dir, ignore_errors=True)
+
+
 def run(tier):
     res = Result("C06", tier, "model_checking")
     res.assumptions = ["scenario files are canonical ({\"id\": j} documents, one guarded rule per data file); richer file contents are covered by C07/C12",
@@ -112,12 +135,14 @@ def run(tier):
     res.add("states", r["distinct"])
     res.add("transitions", r["states"])
     run_scenarios(res, r["out"], limit=1200 if tier == "quick" else 12000)
+    unbounded_fold(res)
     import c16
     c16.test_exit_codes(res, tier)
     res.cov["rule"] = ("MC_Cli: every scenario of <= NR rules files (ok/broken/empty) x <= ND data files (ok/malformed) x outcome "
                        "assignment (PASS/FAIL/SKIP/evaluation error) x parameter conflict x code path (plain, structured, junit), "
                        "run step by step through the GuardCli machine; terminal states materialised as real files and run through the "
-                       "cfn-guard binary (process exit status compared with the machine's)")
+                       "cfn-guard binary (process exit status compared with the machine's); FoldAgrees + Apalache: the exit-code folds "
+                       "satisfy the table for any number of files (inductive invariant of spec/apalache/ExitFold.tla)")
     return res.finish()
 
 
